@@ -4,10 +4,10 @@ CONSTANTS
   K = 2
   NF = 2
   NG = 2
-  PF = "p2a"
+  PF = "p2s"
   TF = "t22e"
-  PG = "p2a"
-  TG = "t22d"
+  PG = "p2s"
+  TG = "t22ds"
   LAYOUTS = {"dfs", "hole"}
   EMIT = TRUE
 VIEW View
